@@ -2,12 +2,21 @@
 
 Theorems: lean/Props/C18.lean about lean/FlexModel/Vru/Cluster.lean (model of VBSClusteringManager).
 Tie: (i) differential correspondence model vs real manager after EVERY event — exhaustive event sequences over a
-fixed alphabet from several roots (pruned by the canonical state), random sequences to length 400, exact clock
-(fractions.Fraction seconds) and float clock; every received VAM went through the real UPER coder first;
-(ii) closed loops of 2-3 real stations (manager + VAMTransmissionManagement + VAMReceptionManagement + real coder).
+fixed alphabet from several roots (pruned by the canonical state; below a mismatch the real side is explored further
+and judged by the oracle), random sequences to length 400 in three profiles (mixed / long passive membership / long
+leadership), exact clock (fractions.Fraction seconds) and float clock; every received VAM went through the real UPER
+coder first; after every event the VAM the station WOULD EMIT — real VAMTransmissionManagement (gate, container
+attachment) + real coder, decoded again — is compared with the model's `emitVam`, the function the two-station
+theorems compose with `recv`;
+(ii) closed loops of 2-3 real stations (manager + VAMTransmissionManagement + VAMReceptionManagement + real coder);
+(iii) two real threads on one manager under harness/dsched.py (pre-emption at every attribute access inside the
+manager, scheduler-aware RLock): the outcome of every explored schedule must be the outcome of one of the two
+sequential orders (themselves compared with the model) — the behavioural side of `public_methods_atomic`, whose
+structural facts gen_vru.lock_facts regenerates from the source.
 Oracle: `Oracle` below — the invariants and deadlines of the property text / TS 103 300-3 clause 5.4.2.2 as a trace
 checker over the public API log; it does not look at the model and keeps its own notion of membership, leader
-silence, notification windows.
+silence (only cluster VAMs OF THE JOINED CLUSTER FROM ITS LEADER count), notification windows (every leave notice due
+must be on the air for its full duration without interruption; overlapping notices may go out in any order).
 """
 from __future__ import annotations
 
@@ -15,6 +24,7 @@ import copy
 import datetime
 import logging
 import math
+import re
 import random as _random
 import types
 from fractions import Fraction
@@ -22,6 +32,7 @@ from fractions import Fraction
 from common import Infra, corpus
 import realstack as rs
 import gen_vru
+import dsched
 
 from flexstack.facilities.vru_awareness_service import vru_clustering as vc
 from flexstack.facilities.vru_awareness_service import vam_constants as K
@@ -38,10 +49,21 @@ TRUSTED = [
     "positions kept >= 10 cm away from MAX_CLUSTER_DISTANCE); asn1tools UPER codec (every VAM fed to a manager is the "
     "output of the real decoder; the codec itself is observed, not proved)",
     "random.randint(1, 255) for the cluster id is replaced by harness-chosen draws in 1..255 (also given to the model)",
+    "harness/gen_vru.py lock_facts (ast pass: body of every public method under `with self._lock`), harness/dsched.py "
+    "(deterministic scheduler; pre-emption points = attribute access / call bytecodes inside VBSClusteringManager)",
 ]
 ASSUMPTIONS = [
-    "the clock read by the manager never goes backwards; the application calls VBSClusteringManager.update() "
-    "periodically (VAMTransmissionManagement does not call it: 'by the next update' is relative to that call)",
+    "NOBODY IN THE REPOSITORY CALLS VBSClusteringManager.update(), try_create_cluster() or initiate_join(): every 'by the "
+    "next update' statement (leader lost, end of a notification, failed join) is about the manager driven by an "
+    "application that calls update() periodically - here the harness (every 100 ms in the closed loops); "
+    "VAMTransmissionManagement only reads should_transmit_vam() and the two containers",
+    "the clock read by the manager never goes backwards and is a POSIX clock (a join started at exactly t = 0 s is "
+    "'falsy' in `self._join_started or now`; compared with the model, not judged)",
+    "cluster ids handed to initiate_join() are ClusterId values 0..255 (they come from received cluster VAMs); other "
+    "integers are accepted by the code and make the individual VAMs unencodable for the 3 s + 1 s of the notices - "
+    "compared with the model, emission tie skipped",
+    "fix C18-F6 (fixes/C18-6-leave-notice-before-cancelled-join.diff) is part of the code under test; on a tree without "
+    "it the model runs in its `cancelHidesLeave` variant and the oracle reports leave-notification-cut-short",
     "known finding C18-KF1: a break-up announced with reason receptionOfCpmContainingCluster leaves members passive "
     "(deliberate reading of clause 5.4.2.2); they are released by the leader-lost timer once cluster VAMs stop",
     "becoming idle (role off) ends every notification; a cluster cannot be created while a join/leave notification runs",
@@ -299,38 +321,46 @@ class Real:
     def apply(self, d, op, observe_after=True):
         self.ms += d
         _NOW[0], _NOW[1] = self.ms, self.clock
-        m, k, ret, exc = self.m, op[0], None, None
-        try:
-            if k == "on":
-                m.set_vru_role_on()
-            elif k == "off":
-                m.set_vru_role_off()
-            elif k == "create":
-                RAND.q = list(op[3])
-                la, lo = pos_deg(op[1], op[2])
-                ret = m.try_create_cluster(la, lo)
-            elif k == "join":
-                ret = m.initiate_join(op[1])
-            elif k == "cancel":
-                m.cancel_join()
-            elif k == "jfail":
-                m.confirm_join_failed()
-            elif k == "leave":
-                m.trigger_leave_cluster(LEAVE_ENUM[op[1]])
-            elif k == "brk":
-                ret = m.trigger_breakup_cluster(BRK_ENUM[op[1]])
-            elif k == "upd":
-                la, lo = pos_deg(0, 0)
-                m.update(la, lo, 1.2, 90.0)
-            elif k == "recv":
-                m.on_received_vam(build_vam(vam_key(*op[1])))
-            elif k != "nop":
-                raise Infra(f"unknown op {op}")
-        except Infra:
-            raise
-        except Exception as e:
-            exc = type(e).__name__
-        return observe(m, ret, exc) if observe_after else None
+        ret, exc = call_op(self.m, op)
+        return observe(self.m, ret, exc) if observe_after else None
+
+
+def call_op(m, op):
+    """one public-API call on a real manager; returns (return value, exception name)"""
+    k, ret, exc = op[0], None, None
+    try:
+        if k == "on":
+            m.set_vru_role_on()
+        elif k == "off":
+            m.set_vru_role_off()
+        elif k == "create":
+            RAND.q = list(op[3])
+            la, lo = pos_deg(op[1], op[2])
+            ret = m.try_create_cluster(la, lo)
+        elif k == "join":
+            ret = m.initiate_join(op[1])
+        elif k == "cancel":
+            m.cancel_join()
+        elif k == "jfail":
+            m.confirm_join_failed()
+        elif k == "leave":
+            m.trigger_leave_cluster(LEAVE_ENUM[op[1]])
+        elif k == "brk":
+            ret = m.trigger_breakup_cluster(BRK_ENUM[op[1]])
+        elif k == "upd":
+            la, lo = pos_deg(0, 0)
+            m.update(la, lo, 1.2, 90.0)
+        elif k == "recv":
+            m.on_received_vam(build_vam(vam_key(*op[1])))
+        elif k != "nop":
+            raise Infra(f"unknown op {op}")
+    except Infra:
+        raise
+    except dsched.SchedAbort:
+        raise
+    except Exception as e:
+        exc = type(e).__name__
+    return ret, exc
 
 
 # ------------------------------------------------------------------------------------------------ oracle
@@ -342,7 +372,7 @@ class Oracle:
         self.prev = "S"
         self.member = None    # {leader, cid, last}: joined cluster as the oracle understands it
         self.join = None      # {cid, t0, phase: notify|waiting, tw}
-        self.leave = None     # {t, cid, reason}
+        self.notices = []     # pending leave notices {t, cid, reason, since}: each must be on the air for T_LEAVE
         self.brk = None       # {t, r}
         self.free = None      # break-up heard from the leader: must be free by the end of the next update
         self.qtol = 1 if float_clock else 0
@@ -350,12 +380,21 @@ class Oracle:
 
     def clone(self):
         n = copy.copy(self)
-        n.member, n.join, n.leave, n.brk, n.free = (copy.copy(x) for x in (self.member, self.join, self.leave, self.brk, self.free))
+        n.member, n.join, n.brk, n.free = (copy.copy(x) for x in (self.member, self.join, self.brk, self.free))
+        n.notices = [dict(x) for x in self.notices]
         n.bad = []
         return n
 
     def _q(self, got, want):
         return abs(got - want) <= self.qtol
+
+    @staticmethod
+    def _matches(n, shown):
+        return shown[0] == (n["cid"] or 0) and (n["reason"] is None or shown[1] == n["reason"])
+
+    def _notice(self, t, cid, reason):
+        """a leave notice is due: `clusterLeaveInfo` (cid, reason) has to be transmitted for timeClusterLeaveNotification"""
+        self.notices.append({"t": t, "cid": cid, "reason": reason, "since": None})
 
     def event(self, t, op, o):
         bad = []
@@ -411,7 +450,7 @@ class Oracle:
                 bad.append(("join-completed-wrong-cluster", o["cid"]))
             if brk_same and st == "S" and "l" in opo and opo["l"][0] == self.join["cid"]:
                 # admitted and disbanded by the same cluster VAM: a leave notification for that cluster starts
-                self.leave = {"t": t, "cid": self.join["cid"], "reason": LEAVE_CODE["CLUSTER_DISBANDED_BY_LEADER"]}
+                self._notice(t, self.join["cid"], LEAVE_CODE["CLUSTER_DISBANDED_BY_LEADER"])
                 self.join = None
         # ---- leader silence
         if k == "upd" and prev == "P" and self.member is not None:
@@ -434,9 +473,9 @@ class Oracle:
             if st == "S":
                 why = op[1] if k == "leave" else LEAVE_CODE["CLUSTER_LEADER_LOST"] if k == "upd" else \
                     LEAVE_CODE["CLUSTER_DISBANDED_BY_LEADER"] if k == "recv" else None
-                self.leave = {"t": t, "cid": cid, "reason": why}
+                self._notice(t, cid, why)
         # ---- cluster creation / break-up warning
-        if k == "create" and ret is True and (self.join is not None or self.leave is not None):
+        if k == "create" and ret is True and (self.join is not None or self.notices):
             bad.append(("cluster-created-during-notification", "join" if self.join else "leave"))
         if prev == "L" and st == "S" and not (k == "upd" and self.brk is not None and t - self.brk["t"] >= T_BRK):
             bad.append(("cluster-dropped-without-breakup-warning", k))
@@ -461,7 +500,7 @@ class Oracle:
                 bad.append(("notification-time-not-encodable", opo))
         # ---- join notification
         if k == "off" or st == "I":
-            self.join, self.leave = None, None
+            self.join, self.notices = None, []
         if k == "join" and ret is True:
             if prev != "S":
                 bad.append(("join-accepted-outside-standalone", prev))
@@ -471,16 +510,16 @@ class Oracle:
             if st == "P" or st == "L":
                 self.join = None
             elif k == "cancel" or (k == "leave" and j["phase"] == "notify" and prev == "S"):
-                self.leave = {"t": t, "cid": j["cid"], "reason": LEAVE_CODE["CANCELLED_JOIN"]}
+                self._notice(t, j["cid"], LEAVE_CODE["CANCELLED_JOIN"])
                 self.join = None
             elif k == "jfail" and j["phase"] == "waiting":
-                self.leave = {"t": t, "cid": j["cid"], "reason": LEAVE_CODE["FAILED_JOIN"]}
+                self._notice(t, j["cid"], LEAVE_CODE["FAILED_JOIN"])
                 self.join = None
             elif k == "upd":
                 if j["phase"] == "notify" and t - j["t0"] >= T_JOIN:
                     j["phase"], j["tw"] = "waiting", t
                 elif j["phase"] == "waiting" and t - j["tw"] >= T_SUCC:
-                    self.leave = {"t": t, "cid": j["cid"], "reason": LEAVE_CODE["FAILED_JOIN"]}
+                    self._notice(t, j["cid"], LEAVE_CODE["FAILED_JOIN"])
                     self.join = None
         if st == "S":
             j = self.join
@@ -492,20 +531,43 @@ class Oracle:
                         bad.append(("join-notification-cut-short", f"{el} ms after initiate_join({j['cid']}): container {opo}"))
             elif "j" in opo:
                 bad.append(("join-info-after-notification", opo))
-            # ---- leave notification
-            lv = self.leave
-            if lv is not None:
-                el = t - lv["t"]
-                if el < T_LEAVE:
-                    ok = "l" in opo and opo["l"][0] == (lv["cid"] or 0) and (lv["reason"] is None or opo["l"][1] == lv["reason"])
-                    if not ok:
-                        bad.append(("leave-notification-cut-short", f"{el} ms after leaving {lv['cid']} (reason {lv['reason']}): container {opo}"))
-                elif k == "upd":
-                    if "l" in opo:
-                        bad.append(("leave-notification-overrun", f"{el} ms: {opo}"))
-                    self.leave = None
-            elif "l" in opo:
-                bad.append(("leave-info-without-leave", opo))
+            # ---- leave notifications.  Every notice due (cluster left / cancelled join / failed join) has to be on the
+            # air for timeClusterLeaveNotification WITHOUT interruption once it has started; a VAM has one
+            # `clusterLeaveInfo`, so notices that overlap go out one after the other (any order); a notice ends at the
+            # first update after its duration.
+            shown = opo.get("l")
+            if k == "upd":
+                for n in self.notices:
+                    if n["since"] is not None and t - n["since"] >= T_LEAVE:
+                        n["done"] = True
+                        if shown is not None and self._matches(n, shown) and \
+                                not any(self._matches(x, shown) for x in self.notices if x is not n and not x.get("done")):
+                            bad.append(("leave-notification-overrun", f"{t - n['since']} ms on the air: {opo}"))
+                self.notices = [n for n in self.notices if not n.get("done")]
+            cur = None
+            if shown is not None:
+                cur = next((n for n in self.notices if self._matches(n, shown)), None)
+                if cur is None:
+                    bad.append(("leave-info-without-leave", opo))
+                elif cur["since"] is None:
+                    cur["since"] = t
+            for n in self.notices:
+                if n is cur:
+                    continue
+                if n["since"] is not None:
+                    if t - n["since"] < T_LEAVE:
+                        bad.append(("leave-notification-cut-short",
+                                    f"{t - n['since']} ms after it started (leaving {n['cid']}, reason {n['reason']}): container {opo}"))
+                        n["since"], n["flagged"] = None, True
+                    else:
+                        n["done"] = True        # had its full duration, replaced by the next one / gone
+                elif cur is None and not n.get("flagged"):
+                    bad.append(("leave-notification-cut-short",
+                                f"{t - n['t']} ms after leaving {n['cid']} (reason {n['reason']}): nothing on the air, container {opo}"))
+                    n["flagged"] = True
+            self.notices = [n for n in self.notices if not n.get("done")]
+        elif st in ("P", "L"):
+            self.notices = []
         self.prev = st
         self.bad += bad
         return bad
@@ -516,6 +578,15 @@ def classify(kind, detail):
     if kind == "breakup-not-freed" and detail == CPM:
         return "C18-KF1"
     return None
+
+
+def regression_of(kind, detail):
+    """fixed finding a violation of this kind would be a regression of (a label only: fixed entries suppress nothing)"""
+    if kind == "leave-notification-cut-short":
+        m = re.search(r"'l': \((\d+), (\d+)\)", str(detail))
+        if m and int(m.group(2)) in (LEAVE_CODE["CANCELLED_JOIN"], LEAVE_CODE["FAILED_JOIN"]):
+            return "C18-F6"
+    return REGRESSION_OF.get(kind)
 
 
 REGRESSION_OF = {   # violation kind -> fixed finding it would be a regression of (fixed entries suppress nothing)
@@ -557,13 +628,18 @@ def detect_variant():
         c.apply(0, ("recv", (30 + i, p)))
     c.apply(0, ("join", 9))
     cdn = c.apply(50, ("create", 0, 0, [7]))["ret"] is True
-    return {"cpmFrees": cpm, "hbAny": hb_any, "tupleFails": tup, "joinHidesLeave": hide, "createDuringNotify": cdn}
+    r4 = r.clone()
+    r4.apply(0, ("leave", 0))
+    r4.apply(50, ("join", 5))
+    chl = (r4.apply(50, ("cancel",))["op"] or {}).get("l", (None,))[0] == 5     # cancelled-join notice replaces the leave notice
+    return {"cpmFrees": cpm, "hbAny": hb_any, "tupleFails": tup, "joinHidesLeave": hide, "createDuringNotify": cdn,
+            "cancelHidesLeave": chl}
 
 
 def new_line(var, now_ms, profiles=0x80):
     b = lambda k: 1 if var[k] else 0
     return (f"new {b('cpmFrees')} {b('hbAny')} {b('tupleFails')} {b('joinHidesLeave')} {b('createDuringNotify')} "
-            f"{profiles} {now_ms}")
+            f"{b('cancelHidesLeave')} {profiles} {now_ms}")
 
 
 def encode_witness():
@@ -590,41 +666,107 @@ class Batch:
     def __init__(self):
         self.lines, self.items = [], []
 
-    def add(self, case, lines, robs):
-        self.items.append((case, len(self.lines), len(lines), robs))
+    def add(self, case, lines, expect):
+        """lines: driver input of the case (first one is `new`); expect: [(index into lines, op index, real line)]"""
+        self.items.append((case, len(self.lines), expect))
         self.lines += lines
 
     def flush(self, ctx, var):
         if not self.items or not ctx.model_ok:
             return
         out = ctx.model("Cluster", self.lines)
-        for case, start, n, robs in self.items:
-            for i, (a, mline) in enumerate(zip(robs, out[start + 1:start + n])):
-                b = mline.split(" # ")[0]
+        for case, start, expect in self.items:
+            for li, oi, a in expect:
+                b = out[start + li].split(" # ")[0]
                 if not same_obs(a, b):
-                    ctx.mismatch("cluster.seq", {"clock": case.get("clock", "fraction"), "base": case.get("base", 1_000_000),
-                                                 "ops": case["ops"][:i + 1]}, a, b)
+                    ctx.mismatch("cluster.emit" if a.startswith(("recv", "none")) else "cluster.seq",
+                                 {"clock": case.get("clock", "fraction"), "base": case.get("base", 1_000_000),
+                                  "ops": case["ops"][:oi + 1]}, a, b)
                     break
         self.lines, self.items = [], []
 
 
-def run_seq(ctx, var, case, batch=None, record=None):
-    """one event sequence on the real manager (+ oracle); model comparison deferred to `batch`.  Returns oracle findings."""
+class Emitter:
+    """the real transmission path of ONE manager: VAMTransmissionManagement (gate `should_transmit_vam`, attachment of
+    the two cluster containers) and the real coder.  `emit` forces the generation condition (no VAM sent yet) so that the
+    VAM the station WOULD put on the air now is produced, decodes it and renders it in the syntax of the `recv` op."""
+    _cache = {}
+
+    def __init__(self, mgr, sid=1):
+        self.mgr, self.sid, self.btp = mgr, sid, _Btp()
+        self.tm = VAMTransmissionManagement(btp_router=self.btp, vam_coder=CODER,
+                                            device_data_provider=DeviceDataProvider(station_id=sid, station_type=1),
+                                            clustering_manager=mgr)
+
+    def emit(self, now_ms, o):
+        """returns (line, error): line as the model's `emit <sid> 0 0` prints it"""
+        key = (self.sid, o["st"], o["tx"], o["info"], tuple(sorted((o["op"] or {}).items())))
+        if key in Emitter._cache:
+            return Emitter._cache[key]
+        self.tm.last_vam_generation_delta_time = None
+        la, lo = pos_deg(0, 0)
+        tpv = {"class": "TPV", "time": datetime.datetime.fromtimestamp(now_ms / 1000.0, datetime.timezone.utc).isoformat().replace("+00:00", "Z"),
+               "lat": la, "lon": lo, "speed": 1.2, "track": 90.0, "altHAE": 12.0, "epx": 1.0, "epy": 1.0, "epv": 1.0}
+        try:
+            with rs.quiet():
+                self.tm.location_service_callback(tpv)
+            sent = self.btp.take()
+            if not sent:
+                res = ("none", None)
+            else:
+                sender, info, opc = summarise(CODER.decode(sent[-1]))
+                res = (vam_line(vam_key(sender, (0, 0), info, opc)), None)
+        except Exception as e:
+            self.btp.take()
+            res = (None, f"{type(e).__name__}: {str(e)[:120]}")
+        Emitter._cache[key] = res
+        return res
+
+
+def ids_encodable(o):
+    """cluster ids handed to initiate_join are ClusterId values (0..255) - recorded assumption; outside it the
+    operation container is not a VAM container and the emission tie is skipped"""
+    return all(isinstance(v[0], int) and 0 <= v[0] <= 255 for tag, v in (o["op"] or {}).items() if tag in ("j", "l"))
+
+
+PROFILE_MASK = {"pedestrian": 0x80, "bicyclistAndLightVruVehicle": 0x40, "motorcyclist": 0x20, "animal": 0x10, "unheardOf": 0}
+
+
+def run_seq(ctx, var, case, batch=None, record=None, emit=True):
+    """one event sequence on the real manager (+ oracle); model comparison deferred to `batch`.  Returns oracle findings.
+    After every event the VAM the station would emit (real gate + containers + real coder) is compared with the
+    model's `emitVam` (tie of the two-station composition theorems) and must be encodable."""
     clock, base = case.get("clock", "fraction"), case.get("base", 1_000_000)
     ops = [(d, _tup(op)) for d, op in case["ops"]]
-    real, orc = Real(base, clock), Oracle(clock == "float")
-    lines, robs, found = [new_line(var, base)], [], []
-    for i, (d, op) in enumerate(ops):
-        o = real.apply(d, op)
-        for b in orc.event(real.ms, op, o):
-            found.append((i, b))
-        robs.append(obs_line(o))
-        lines.append(f"{d} {op_line(op)}")
-        if record is not None:
-            record.append((real.ms, op, o))
+    profile = case.get("profile", "pedestrian")
+    real, orc = Real(base, clock, profile=profile), Oracle(clock == "float")
+    em = Emitter(real.m) if emit else None
+    judge = case.get("judge", True)      # False: correspondence only (input outside the oracle's assumptions)
+    lines, expect, found = [new_line(var, base, PROFILE_MASK[profile]) if var else "new"], [], []
+    with rs.VClock(base) as vclock:
+        for i, (d, op) in enumerate(ops):
+            o = real.apply(d, op)
+            for b in (orc.event(real.ms, op, o) if judge else ()):
+                found.append((i, b))
+            lines.append(f"{d} {op_line(op)}")
+            expect.append((len(lines) - 1, i, obs_line(o)))
+            if em is not None and not o["exc"] and ids_encodable(o):
+                vclock.ms = real.ms
+                line, err = em.emit(real.ms, o)
+                if err:
+                    found.append((i, ("vam-not-encodable", f"state {o['st']}, containers {o['info']} {o['op']}: {err}")))
+                else:
+                    lines.append("emit 1 0 0")
+                    expect.append((len(lines) - 1, i, line))
+                    if (line != "none") != bool(o["tx"]):
+                        found.append((i, ("emitted-while-suppressed" if line != "none" else "allowed-but-silent",
+                                          f"state {o['st']}, should_transmit {o['tx']}, emitted {line}")))
+            if record is not None:
+                record.append((real.ms, op, o))
     ctx.evals(len(ops))
+    ctx.cover("emit_checks", sum(1 for e in expect if e[2].startswith(("recv", "none"))))
     if batch is not None:
-        batch.add(case, lines, robs)
+        batch.add(case, lines, expect)
     return found
 
 
@@ -642,28 +784,43 @@ def _tup(op):
     return tuple(op)
 
 
+def first_of_kind(ctx, kind, detail):
+    """one witness per violation kind is reported (the pipeline prints the first three violations: they should be three
+    different kinds, not three histories of the same defect); cases under a known finding are always counted"""
+    if classify(kind, detail) is not None:
+        return True
+    seen = ctx.__dict__.setdefault("_c18_kinds_reported", set())
+    if kind in seen:
+        ctx.cover("further_witnesses_" + kind)
+        return False
+    seen.add(kind)
+    return True
+
+
 def report(ctx, case, found, shrink=True):
     """turn oracle findings of a sequence case into ctx.violation calls (shrunk replay)"""
     seen = set()
     for i, (kind, detail) in found:
-        if kind in seen:
+        if kind in seen or not first_of_kind(ctx, kind, detail):
             continue
         seen.add(kind)
         small = dict(case, ops=[list(x) for x in case["ops"][:i + 1]])
         if shrink:
             small = shrink_seq(small, kind)
-        fid = classify(kind, detail) or REGRESSION_OF.get(kind)
+        fid = classify(kind, detail) or regression_of(kind, detail)
         ctx.violation(f"{kind}: {detail}", dict(small, kind="seq", expect=kind), fid)
 
 
+class _NoCtx:
+    def evals(self, n=1):
+        pass
+
+    def cover(self, *a):
+        pass
+
+
 def seq_kinds(case):
-    real, orc = Real(case.get("base", 1_000_000), case.get("clock", "fraction")), None
-    orc = Oracle(case.get("clock") == "float")
-    kinds = []
-    for d, op in case["ops"]:
-        op = _tup(op)
-        kinds += [b[0] for b in orc.event(real.ms + d, op, real.apply(d, op))]
-    return kinds
+    return [b[0] for _, b in run_seq(_NoCtx(), None, case)]
 
 
 def shrink_seq(case, kind, budget=300):
@@ -690,7 +847,7 @@ def alphabet(thorough):
     ops = [("on",), ("off",), ("create", 0, 0, [7]), ("join", A), ("cancel",), ("jfail",), ("leave", 0), ("brk", CPM),
            ("upd",),
            ("recv", (LDR, P_L)), ("recv", (OTH, P_O)),
-           ("recv", (LDR, P_L, (A, 2, "c"))), ("recv", (OTH, P_O, (A, 3, "o"))),
+           ("recv", (LDR, P_L, (A, 2, "c"))), ("recv", (OTH, P_O, (A, 3, "o"))), ("recv", (LDR, P_L, (7, 1, "c"))),
            ("recv", (OTH, P_O, None, (7, None, None))),
            ("recv", (LDR, P_L, (A, 2, "c"), (None, None, 1))), ("recv", (LDR, P_L, (A, 2, "c"), (None, None, CPM))),
            ("recv", (OTH, P_O, None, (None, None, 2)))]
@@ -761,6 +918,12 @@ def explore(ctx, var, jobs, alpha):
                     dig = dig.split(" ## ")[0] + " " + " ".join(t for t in b.split() if t[:3] in ("nv=", "nc="))
                 if not same_obs(a, b):
                     ctx.mismatch("cluster.exhaustive", {"root": job["root"], "ops": [[x, list(y)] for x, y in path]}, a, b)
+                    # model and code have parted: keep exploring the REAL side below this point (judged by the oracle
+                    # only, pruned by the real observation) so that the concrete failing history is found here
+                    key = ("diverged", a, sum(x for x, _ in path), o2.prev, bool(o2.member), bool(o2.join), len(o2.notices))
+                    if key not in job["seen"] and len([1 for k in job["seen"] if isinstance(k, tuple)]) < 400:
+                        job["seen"].add(key)
+                        nxt[ji].append((o2, path))
                     continue
                 ctx.cover(f"ex_{kind}_{st}")
                 if dig not in job["seen"]:
@@ -782,15 +945,33 @@ def explore(ctx, var, jobs, alpha):
     return jobs
 
 
-def random_case(ctx, length, clock):
+def random_case(ctx, length, clock, profile="mixed"):
+    """profile 'mixed': uniform over the API; 'member': starts as a passive member of cluster A led by LDR and mostly
+    hears VAMs (of its leader for A / for other cluster ids, of other stations for A, individual VAMs) and updates, so
+    that long passive histories are explored; 'leader': starts as the leader of cluster 7 and mostly hears join / leave
+    notices, break-up commands and updates"""
     rng = ctx.rng
     ids = [A, 7, 0, rng.randrange(1, 256), 255, 300]
     senders = [LDR, OTH, 23, 24, 1]
     boundary = [t + e for t in THRESHOLDS for e in (-1, 0, 1)]
     ops, now, armed = [], 1_000_000, {1_000_000}
-    for _ in range(length):
+    prefix = {"member": ROOTS["passive"], "leader": ROOTS["leader"]}.get(profile, [])
+    for d, op in prefix:
+        now += d
+        armed.add(now)
+        ops.append([d, _listify(op)])
+    while len(ops) < length:
+        if profile != "mixed" and len(ops) % 50 == 49:
+            # back to the profile's state (role off/on forgets everything, then the root again)
+            for d, op in [(0, ("off",)), (0, ("on",))] + list(prefix):
+                now += d
+                armed.add(now)
+                ops.append([d, _listify(op)])
+            continue
         r = rng.random()
-        if r < 0.35:
+        if profile != "mixed" and r < 0.75:
+            d = rng.choice((0, 50, 100, 250, 400, 500, 900, 1000)) if r < 0.6 else rng.choice(boundary[:9] + [1999, 2000, 2001])
+        elif r < 0.35:
             d = rng.choice(TICKS)
         elif r < 0.6:
             d = rng.choice(boundary)
@@ -806,7 +987,29 @@ def random_case(ctx, length, clock):
         now += d
         armed = {a for a in armed if now - a <= THRESHOLDS[-1] + 1000} | {now}
         x = rng.random()
-        if x < 0.22:
+        if profile == "member" and x < 0.85:
+            if x < 0.25:
+                op = ("upd",)
+            else:
+                sender = rng.choice([LDR, LDR, LDR, OTH, 23])
+                info = None
+                if rng.random() < 0.75:
+                    info = (rng.choice([A, A, A, 7, 0, None, rng.randrange(0, 256)]), rng.choice([1, 2, 20]), rng.choice("aco"))
+                opc = None
+                if rng.random() < 0.12:
+                    opc = (rng.choice([None, 7, A]), rng.choice([None, A]), rng.choice([None, None, 1, CPM]))
+                op = ("recv", (sender, P_L if sender == LDR else rng.choice(VAM_POS), info, opc))
+        elif profile == "leader" and x < 0.85:
+            if x < 0.25:
+                op = ("upd",)
+            elif x < 0.32:
+                op = ("brk", rng.randrange(0, 6))
+            else:
+                sender = rng.choice([OTH, 23, 24, 31, 32])
+                info = (rng.choice([7, A, None]), rng.choice([1, 2]), rng.choice("aco")) if rng.random() < 0.2 else None
+                opc = (rng.choice([None, 7, 7, A]), rng.choice([None, None, 7]), rng.choice([None, None, None, 1]))
+                op = ("recv", (sender, rng.choice(VAM_POS), info, opc))
+        elif x < 0.22:
             op = ("upd",)
         elif x < 0.27:
             op = ("on",) if rng.random() < 0.6 else ("off",)
@@ -836,8 +1039,38 @@ def random_case(ctx, length, clock):
             if info is not None and info[2] == "c" and rng.random() < 0.15:
                 v = v + (True,)      # legacy dict-shaped bounding box
             op = ("recv", v)
-        ops.append([d, list(op)])
+        ops.append([d, _listify(op)])
     return {"clock": clock, "base": 1_000_000, "ops": ops}
+
+
+def _listify(op):
+    return list(op)
+
+
+PROFILES = ("mixed", "member", "mixed", "leader", "member", "mixed")
+
+
+def special_cases(ctx):
+    """inputs the random generator does not produce: clock origin 0 / 1 ms (the `started or now` idiom), the 100-draw
+    limit of the cluster-id generator, own profiles other than pedestrian"""
+    out = []
+    # manager created at the epoch: join started at t = 0 is 'falsy' (`self._join_started or now`): joinTime does not
+    # count down - outside the recorded assumption (POSIX clock, hypothesis `0 < t0` of join_notification_lasts):
+    # model and code are compared, the oracle is not asked
+    out.append({"clock": "fraction", "base": 0, "judge": False,
+                "ops": [[0, ["join", 9]], [500, ["upd"]], [2400, ["nop"]], [100, ["upd"]], [400, ["upd"]], [100, ["upd"]]]})
+    c = random_case(ctx, 120, "fraction")
+    out.append(dict(c, base=1))
+    # cluster-id generator: 100 draws that are all recently seen ids, the 101st would be free -> creation fails
+    seen_ids = [A, 7]
+    pre = [[0, ["recv", [31, [0, 0], None, None]]], [0, ["recv", [32, [300, 0], None, None]]], [0, ["recv", [33, [0, 480], None, None]]],
+           [0, ["recv", [LDR, list(P_L), [A, 2, "c"], None]]], [0, ["recv", [OTH, list(P_O), [7, 2, "c"], None]]]]
+    out.append({"clock": "fraction", "base": 1_000_000,
+                "ops": pre + [[50, ["create", 0, 0, [seen_ids[i % 2] for i in range(100)] + [55]]], [50, ["create", 0, 0, [A] * 99 + [55]]],
+                              [0, ["upd"]]]})
+    for prof in ("bicyclistAndLightVruVehicle", "animal", "unheardOf"):
+        out.append(dict(random_case(ctx, 150, "fraction", "leader"), profile=prof))
+    return out
 
 
 def check_positions():
@@ -953,6 +1186,19 @@ def run_loop(ctx, case, verbose=False):
                     elif act == "cancel":
                         b.mgr.cancel_join()
                         b.ev(_NOW[0], ("cancel",))
+                    elif act == "refound":
+                        # the leader abandons its cluster without notice (role off/on) and founds a NEW cluster under
+                        # another id within timeClusterContinuity: its cluster VAMs must not keep the old members passive
+                        a.mgr.set_vru_role_off()
+                        a.ev(_NOW[0], ("off",))
+                        a.mgr.set_vru_role_on()
+                        a.ev(_NOW[0], ("on",))
+                        script.setdefault(off + 300 + 100 * rng.randrange(0, 8), []).append(("create2", a))
+                    elif act == "create2":
+                        cid2 = 1 + (cid_pick + 36) % 255
+                        RAND.q = [cid2]
+                        la, lo = pos_deg(*who.pos)
+                        who.ev(_NOW[0], ("create", who.pos[0], who.pos[1], [cid2]), who.mgr.try_create_cluster(la, lo))
             now += step
             vclock.ms = _NOW[0] = now
             air = []
@@ -1008,8 +1254,9 @@ def run_loop(ctx, case, verbose=False):
         if not joined and scen != "cancel" and loss == 0.0:
             b.bad.append((now, ("join-not-completed", f"station {b.sid} never became passive towards the advertised cluster")))
         for s in sts:
-            if s.alive and s.mgr.state is not vc.VBSState.VRU_IDLE and not (a.alive and a.in_range and ST[a.mgr.state] == "L"):
-                if ST[s.mgr.state] == "P" and scen in ("silence", "outofrange", "breakup", "leader_off"):
+            if s.alive and s.mgr.state is not vc.VBSState.VRU_IDLE and \
+                    not (a.alive and a.in_range and ST[a.mgr.state] == "L" and a.mgr.get_cluster_id() == s.mgr.get_cluster_id()):
+                if ST[s.mgr.state] == "P" and scen in ("silence", "outofrange", "breakup", "leader_off", "refound"):
                     s.bad.append((now, ("silenced-for-good", f"station {s.sid} still passive {t_end - base - t_act} ms after '{scen}'")))
     for s in sts:
         for t, bd in s.bad:
@@ -1031,7 +1278,7 @@ def _plain_vam(sid, pos, now_ms):
     return vam
 
 
-SCENARIOS = ["silence", "outofrange", "breakup", "leave", "leader_off", "cancel"]
+SCENARIOS = ["silence", "outofrange", "breakup", "leave", "leader_off", "cancel", "refound"]
 
 
 def loop_cases(ctx, count):
@@ -1046,12 +1293,202 @@ def loop_cases(ctx, count):
 def report_loop(ctx, case, found):
     seen = set()
     for sid, t, (kind, detail) in found:
-        if kind in seen:
+        if kind in seen or not first_of_kind(ctx, kind, detail):
             continue
         seen.add(kind)
-        fid = classify(kind, detail) or REGRESSION_OF.get(kind)
+        fid = classify(kind, detail) or regression_of(kind, detail)
         ctx.violation(f"closed loop ({case['n']} stations, {case['scenario']}): station {sid} at +{t} ms: {kind}: {detail}",
                       dict(case, expect=kind), fid)
+
+
+# ------------------------------------------------------------------------------------------------ threads
+# The model makes every public method ONE transition.  Structural side: theorem `public_methods_atomic` over the facts
+# regenerated by gen_vru.lock_facts (whole body under `with self._lock`).  Behavioural side (here): two real threads
+# call the public API concurrently under the deterministic scheduler (pre-emption before every attribute access /
+# call inside VBSClusteringManager, scheduler-aware RLock); whatever the schedule, the outcome (final public state,
+# membership fields, return values) must be the outcome of ONE of the two sequential orders - which are compared
+# with the model like every other sequence - and must satisfy the consistency clauses of the property.
+CONC = [
+    {"name": "roleoff-vs-join-completion", "root": "waiting", "dt": 50,
+     "threads": [["recv", [LDR, list(P_L), [A, 2, "c"]]], ["off"]]},
+    {"name": "roleoff-vs-leader-lost", "root": "passive", "dt": 2000, "threads": [["upd"], ["off"]]},
+    {"name": "leave-vs-breakup-heard", "root": "passive", "dt": 50,
+     "threads": [["recv", [LDR, list(P_L), [A, 2, "c"], [None, None, 1]]], ["leave", 0]]},
+    {"name": "breakup-vs-join-notice", "root": "leader", "dt": 50,
+     "threads": [["recv", [OTH, list(P_O), None, [7, None, None]]], ["brk", 1]]},
+    {"name": "join-completion-vs-update", "root": "waiting", "dt": 500,
+     "threads": [["recv", [LDR, list(P_L), [A, 2, "c"]]], ["upd"]]},
+    {"name": "create-vs-join", "root": "neighbours", "dt": 50, "threads": [["create", 0, 0, [7]], ["join", A]]},
+    {"name": "roleoff-vs-create", "root": "neighbours", "dt": 50, "threads": [["create", 0, 0, [7]], ["off"]]},
+    {"name": "cancel-vs-update", "root": "waiting", "dt": 100, "threads": [["cancel"], ["upd"]]},
+]
+_conc_codes = None
+
+
+def conc_codes():
+    global _conc_codes
+    if _conc_codes is None:
+        out = []
+        for f in vars(vc.VBSClusteringManager).values():
+            f = getattr(f, "fget", f)
+            f = getattr(f, "__func__", f)
+            if hasattr(f, "__code__"):
+                out.append(f.__code__)
+        _conc_codes = out
+    return _conc_codes
+
+
+def consistency(o):
+    """first sentence of the property on ONE observation (no history needed)"""
+    bad = []
+    if o["exc"]:
+        return [("api-raised", o["exc"])]
+    st, priv = o["st"], o.get("priv", ())
+    have_priv = priv and all(p != "n/a" for p in priv)
+    if (st == "L") != (o["info"] is not None):
+        bad.append(("leader-iff-owns-cluster", f"state {st}, information container {o['info']}"))
+    if st == "P":
+        if o["cid"] is None:
+            bad.append(("passive-without-cluster", None))
+        if have_priv and (priv[1] is None or priv[2] is None):
+            bad.append(("passive-without-leader-or-timer", priv[1:]))
+    else:
+        if st != "L" and o["cid"] is not None:
+            bad.append(("cluster-id-outside-membership", o["cid"]))
+        if have_priv and any(p is not None for p in priv):
+            bad.append(("membership-outside-passive", f"state {st}, joined/leader/timer {priv}"))
+    if not o["tx"] and st not in ("I", "P"):
+        bad.append(("suppressed-outside-passive-idle", st))
+    return bad
+
+
+def conc_prefix(sc):
+    return list(ROOTS[sc["root"]]) + [(sc["dt"], ("nop",))]
+
+
+def conc_sequential(sc):
+    """outcomes (final observation line, return values by thread) of the two sequential orders on the real manager"""
+    outs = {}
+    ops = [_tup(op) for op in sc["threads"]]
+    for order in ((0, 1), (1, 0)):
+        real = Real.from_path(1_000_000, conc_prefix(sc))
+        rets = [None, None]
+        for i in order:
+            rets[i] = call_op(real.m, ops[i])
+        _NOW[0] = real.ms
+        outs[(obs_line(observe(real.m)), tuple(rets))] = order
+    return outs
+
+
+class ConcRun:
+    def __init__(self, sc, policy):
+        self.sc = sc
+        ops = [_tup(op) for op in sc["threads"]]
+        with dsched.patched([vc]):
+            real = Real.from_path(1_000_000, conc_prefix(sc))      # its `_lock` is a scheduler-aware RLock
+            if sc.get("nolock"):                                    # self-test: emulate dropped `with self._lock`
+                real.m._lock = dsched.NoLock()
+            self.rets = [None, None]
+            sched = dsched.DSched(policy, line_files=[vc.__file__], opcode_codes=conc_codes(), max_steps=60000)
+
+            def body(i):
+                def f():
+                    self.rets[i] = call_op(real.m, ops[i])
+                return f
+            for i in range(2):
+                sched.spawn(body(i), name=f"T{i}")
+            with rs.quiet():
+                sched.run(timeout=30.0)
+            self.s, self.steps, self.choices = sched, sched.steps, [c[0] for c in sched.steps]
+            self.abort = sched.abort_reason
+            _NOW[0] = real.ms
+            try:
+                self.obs = observe(real.m)
+            except RuntimeError as e:          # lock still held by a dead thread
+                self.obs, self.abort = None, f"lock-held: {e}"
+
+    def judge(self, allowed):
+        if self.abort:
+            return [("threads-" + str(self.abort).split(":")[0], str(getattr(self.s, "deadlock", None)))]
+        for i, ts in enumerate(self.s.threads):
+            if ts.exc is not None:
+                return [("api-raised", f"T{i}: {type(ts.exc).__name__}: {ts.exc}")]
+        bad = consistency(self.obs)
+        key = (obs_line(self.obs), tuple(self.rets))
+        if key not in allowed:
+            bad.append(("non-atomic-interleaving",
+                        f"outcome {key[0]} rets {key[1]} is the outcome of neither sequential order: "
+                        + " | ".join(f"{'T%d;T%d' % o}: {k[0]} rets {k[1]}" for k, o in allowed.items())))
+        return bad
+
+
+class _Found(Exception):
+    pass
+
+
+def conc_explore(ctx, sc, bound, cap, n_pct, allowed=None):
+    """systematic schedules up to `bound` pre-emptions (capped), then PCT; stops at the first violating schedule"""
+    allowed = allowed if allowed is not None else conc_sequential(sc)
+    state = {"est": 300}
+
+    def handle(run):
+        ctx.evals()
+        ctx.cover("conc_runs_" + sc["name"])
+        ctx.cover("conc_preemptions_%d" % min(dsched.preemptions(run.steps), 3))
+        bad = run.judge(allowed)
+        ctx.nontrivial(("conc", sc["name"], obs_line(run.obs) if run.obs else None, tuple(run.rets)))
+        state["est"] = max(state["est"], run.s.nsteps)
+        if bad:
+            kind, detail = bad[0]
+            ctx.violation(f"threads {sc['name']} ({' || '.join(op_line(_tup(o)) for o in sc['threads'])}): {kind}: {detail}",
+                          {"kind": "conc", "scenario": sc, "schedule": run.choices, "expect": kind}, None)
+            raise _Found()
+        return run
+
+    try:
+        def once(prefix):
+            return handle(ConcRun(sc, dsched.Replay(prefix))).steps
+        runs, exhausted = dsched.enumerate_schedules(once, bound, cap, ctx.rng)
+        ctx.cover("conc_systematic_runs", runs)
+        if exhausted:
+            ctx.cover("conc_exhausted_bound_%d" % bound)
+        for i in range(n_pct):
+            handle(ConcRun(sc, dsched.PCT(ctx.rng, depth=2 + i % 3, est_steps=state["est"])))
+        ctx.cover("conc_pct_runs", n_pct)
+    except _Found:
+        return True
+    return False
+
+
+def conc_model(ctx, var, scs):
+    """the two sequential orders of every scenario on model and code (ordinary correspondence)"""
+    lines, idx = [], []
+    for sc in scs:
+        ops = [_tup(op) for op in sc["threads"]]
+        for order in ((0, 1), (1, 0)):
+            real = Real(1_000_000)
+            lines.append(new_line(var, 1_000_000))
+            for d, op in conc_prefix(sc):
+                real.apply(d, op, observe_after=False)
+                lines.append(f"{d} {op_line(op)}")
+            for i in order:
+                o = real.apply(0, ops[i])
+                lines.append(f"0 {op_line(ops[i])}")
+                idx.append((len(lines) - 1, sc, order, obs_line(o)))
+    if not ctx.model_ok:
+        return
+    out = ctx.model("Cluster", lines)
+    for li, sc, order, a in idx:
+        b = out[li].split(" # ")[0]
+        if not same_obs(a, b):
+            ctx.mismatch("cluster.conc", {"scenario": sc["name"], "order": list(order)}, a, b)
+    ctx.evals(len(idx))
+
+
+def run_threads(ctx, var, bound, cap, n_pct):
+    conc_model(ctx, var, CONC)
+    for sc in CONC:
+        conc_explore(ctx, sc, bound, cap, n_pct)
 
 
 # ------------------------------------------------------------------------------------------------ entry points
@@ -1074,7 +1511,9 @@ def run_corpus(ctx, var, batch):
         n += 1
         bad = replay_case(ctx, case, var, quiet=True, batch=batch)
         for kind, detail in bad:
-            fid = classify(kind, detail) or REGRESSION_OF.get(kind)   # never the label stored in the corpus file
+            if not first_of_kind(ctx, kind, detail):
+                continue
+            fid = classify(kind, detail) or regression_of(kind, detail)   # never the label stored in the corpus file
             ctx.violation(f"corpus {name}: {kind}: {detail}", dict(case, expect=kind), fid)
     ctx.cover("corpus_cases", n)
 
@@ -1090,6 +1529,10 @@ def replay_case(ctx, case, var=None, quiet=False, batch=None):
         return [("cluster-vam-not-encodable", err)] if err else []
     if kind == "loop":
         return [b for _, _, b in run_loop(ctx, case, verbose=not quiet)]
+    if kind == "conc":
+        sc = case["scenario"]
+        ctx.evals()
+        return ConcRun(sc, dsched.Replay(case.get("schedule", []))).judge(conc_sequential(sc))
     raise Infra(f"unknown replay kind {kind}")
 
 
@@ -1097,7 +1540,8 @@ def run(ctx):
     ctx.extra["rule"] = ("events on a real VBSClusteringManager compared with the model after every event (public API: return "
                          "value, state, should_transmit, cluster id, both containers, table sizes); exhaustive over the alphabet "
                          "x clock steps {50,250,1000,3000} ms from 5 roots, children pruned by canonical model state; random "
-                         "sequences of 400 events (exact and float clock); closed loops through the real coder. "
+                         "sequences of 400 events (exact and float clock; profiles mixed / member / leader) with the emitted "
+                         "VAM compared after every event; closed loops through the real coder; two-thread schedules. "
                          "distinct_nontrivial counts distinct canonical states reached plus distinct random/loop cases")
     check_positions()
     with _Patched():
@@ -1125,7 +1569,8 @@ def run(ctx):
         # random sequences
         for i in range(ctx.scale(24, 300)):
             clock = "float" if i % 3 == 2 else "fraction"
-            case = random_case(ctx, 400, clock)
+            case = random_case(ctx, 400, clock, PROFILES[i % len(PROFILES)])
+            ctx.cover(f"random_profile_{PROFILES[i % len(PROFILES)]}")
             rec = []
             found = run_seq(ctx, var, case, batch=batch, record=rec)
             for (_, op, o) in rec:
@@ -1136,9 +1581,14 @@ def run(ctx):
                 report(ctx, case, found)
             if i == 0:
                 ctx.sample("random", {"clock": clock, "ops": case["ops"][:8]})
+        for case in special_cases(ctx):
+            found = run_seq(ctx, var, case, batch=batch)
+            ctx.cover("special_sequences")
+            if found:
+                report(ctx, case, found)
         batch.flush(ctx, var)
         # (ii) closed loops
-        for case in loop_cases(ctx, ctx.scale(12, 240)):
+        for case in loop_cases(ctx, ctx.scale(14, 240)):
             found = run_loop(ctx, case)
             ctx.evals()
             ctx.cover(f"loop_{case['scenario']}_{case['n']}")
@@ -1146,30 +1596,48 @@ def run(ctx):
             report_loop(ctx, case, found)
         ctx.sample("loop", loop_cases(ctx, 1)[0])
         malformed(ctx)
+        # (iii) two threads on one manager under the deterministic scheduler
+        run_threads(ctx, var, bound=1, cap=ctx.scale(40, 600), n_pct=ctx.scale(3, 40))
+        ctx.note("threads: %d two-thread scenarios, every schedule with <= 1 pre-emption (capped) + PCT; outcome must equal "
+                 "one of the two sequential orders (which are compared with the model)" % len(CONC))
 
 
 def malformed(ctx):
-    """incomplete VAM dicts must not raise nor disturb the consistency clauses (model does not cover them)"""
-    real, orc = Real(1_000_000), Oracle()
+    """incomplete VAM dicts - in every root state (fresh, neighbours, leader, waiting, passive) - must not raise nor
+    disturb the consistency clauses, and must not change state / membership (the model does not cover them)"""
     full = build_vam(vam_key(LDR, P_L, (A, 2, "c"), (7, 7, 1)))
-    cases = [{}, {"header": {}}, {"header": {"stationId": 5}, "vam": {}}, {"header": {"stationId": 5}, "vam": {"vamParameters": {}}}]
+    # (dict, inert): inert = nothing in it can legitimately act on the clustering state
+    cases = [({}, True), ({"header": {}}, True), ({"header": {"stationId": 5}, "vam": {}}, True),
+             ({"header": {"stationId": 5}, "vam": {"vamParameters": {}}}, True)]
     v = copy.deepcopy(full)
-    del v["vam"]["vamParameters"]["vruClusterInformationContainer"]["vruClusterInformation"]
-    cases.append(v)
+    v["vam"]["vamParameters"]["vruClusterInformationContainer"] = {"bogus": 1}      # KeyError after the nearby-VRU table
+    cases.append((v, False))
     v = copy.deepcopy(full)
     v["vam"]["vamParameters"]["vruClusterOperationContainer"] = {"clusterBreakupInfo": {}}
-    cases.append(v)
-    for c in cases:
-        try:
-            real.m.on_received_vam(c)
-            exc = None
-        except Exception as e:
-            exc = type(e).__name__
-        o = observe(real.m, None, exc)
-        for b in orc.event(real.ms, ("nop",), o):
-            ctx.violation(f"malformed VAM: {b}", {"kind": "malformed"})
-        ctx.evals()
-    ctx.cover("malformed_vams", len(cases))
+    v["vam"]["vamParameters"].pop("vruClusterInformationContainer")
+    cases.append((v, True))
+    v = copy.deepcopy(full)
+    v["vam"]["vamParameters"]["basicContainer"] = {}
+    cases.append((v, True))
+    # (containers of a non-dict type - e.g. clusterJoinInfo = "x" - raise AttributeError out of on_received_vam; the
+    # decoder cannot produce them, so they are outside the property and not fed here)
+    for root, path in ROOTS.items():
+        real = Real.from_path(1_000_000, list(path))
+        for c, inert in cases:
+            before = observe(real.m)
+            try:
+                real.m.on_received_vam(copy.deepcopy(c))
+                exc = None
+            except Exception as e:
+                exc = type(e).__name__
+            o = observe(real.m, None, exc)
+            for b in consistency(o):
+                ctx.violation(f"malformed VAM in root {root}: {b}", {"kind": "malformed"})
+            if inert and (o["st"], o["cid"], o["priv"][:2], o["info"]) != (before["st"], before["cid"], before["priv"][:2], before["info"]):
+                ctx.violation(f"malformed VAM in root {root} changed the clustering state: {obs_line(before)} -> {obs_line(o)}",
+                              {"kind": "malformed"})
+            ctx.evals()
+    ctx.cover("malformed_vams", len(cases) * len(ROOTS))
 
 
 def search(ctx):
@@ -1177,12 +1645,16 @@ def search(ctx):
     with _Patched():
         var = detect_variant()
         for i in range(ctx.scale(72, 900)):
-            case = random_case(ctx, 400, "float" if i % 3 == 2 else "fraction")
+            case = random_case(ctx, 400, "float" if i % 3 == 2 else "fraction", PROFILES[i % len(PROFILES)])
             found = run_seq(ctx, var, case)
             if found:
                 report(ctx, case, found)
-        for case in loop_cases(ctx, ctx.scale(18, 120)):
+        for case in loop_cases(ctx, ctx.scale(21, 120)):
             report_loop(ctx, case, run_loop(ctx, case))
+        if not ctx.violations:
+            for sc in CONC:
+                if conc_explore(ctx, sc, bound=2, cap=ctx.scale(1500, 6000), n_pct=ctx.scale(40, 300)):
+                    break
 
 
 def replay(ctx, obj):
